@@ -26,29 +26,32 @@ func Glob(pattern, input string, opts ...Option) bool {
 	for _, o := range opts {
 		o(&g)
 	}
+	// i and j are the current positions in pattern and input. star is the
+	// position of the most recent '*' in the pattern (-1 if none) and mark is
+	// the input position it is currently assumed to extend to; on a mismatch
+	// the '*' is grown by one byte and matching resumes after it.
 	i := 0
 	j := 0
-	asterisk := false
-	for i < len(pattern) {
-		if pattern[i] == '*' {
-			asterisk = true
+	star := -1
+	mark := 0
+	for j < len(input) {
+		if i < len(pattern) && pattern[i] == '*' {
+			star = i
+			mark = j
 			i++
-		} else {
-			match := pattern[i] == input[j]
-			if !asterisk && !match {
-				return false
-			}
-			if match {
-				i++
-			}
-			if asterisk && match {
-				asterisk = false
-			}
+		} else if i < len(pattern) && pattern[i] == input[j] {
+			i++
 			j++
-		}
-		if j >= len(input) {
-			break
+		} else if star >= 0 {
+			mark++
+			i = star + 1
+			j = mark
+		} else {
+			return false
 		}
 	}
-	return i == len(pattern) && (asterisk || j == len(input))
+	for i < len(pattern) && pattern[i] == '*' {
+		i++
+	}
+	return i == len(pattern)
 }
